@@ -257,12 +257,16 @@ def ideal_class(cfgm, pr, rec, seq, recv_limit):
     return {"bad_record_mac"}
 
 
-def payloads_for(cfg, rng):
+def payloads_for(cfg, rng, variant=0):
     """four distinct payloads; lengths chosen so that the CBC padding-length byte is 0 in one
-    MAC-then-encrypt and one encrypt-then-MAC record"""
+    MAC-then-encrypt and one encrypt-then-MAC record; variant 1 (thorough): a longer first record"""
     kind, bs, tag = R.CIPHER_SHAPE[cfg["cipher"]]
     bs = bs or 16
     lens = [bs - 1, 3, (bs - 1 - 20) % bs + bs, 2 * bs + 5]
+    if variant == 1:
+        lens = [200 if cfg["cipher"] not in R.SLOW else 40, 17, 64, 5]
+    if variant == 2:
+        lens = [(bs - 1 - 32) % bs + 2 * bs, 0, 1, 700 if cfg["cipher"] not in R.SLOW else 30]
     return [rb(rng, n) for n in lens]
 
 
@@ -415,7 +419,7 @@ def judge_rl(ctx, cfg, receiver, cfgm, pr, conn, states, truth, spec, k, rec, la
     ctx.count("L1:%s:%s" % (spec["kind"], res[0] if res[0] == "ok" else res[1]))
     ctx.case(key=("L1", label, receiver, repr(sorted(spec.items()))), sample=None)
     is_next = k < len(truth) and rec == truth[k][2]
-    rep = dict(stage="L1", cfg=jcfg(cfg), receiver=receiver, spec=spec, k=k)
+    rep = dict(stage="L1", cfg=jcfg(cfg), receiver=receiver, spec=spec, k=k, variant=ctx.extra.get("_variant", 0))
     if res[0] == "ok":
         t, p = res[1], res[2]
         passthrough = T.is13(cfgm) and rec[0] in (20, 21) and (t, p) == (rec[0], rec[2])
@@ -443,15 +447,16 @@ def judge_rl(ctx, cfg, receiver, cfgm, pr, conn, states, truth, spec, k, rec, la
         ctx.disagree("live-reject-class", dict(cfg=jcfg(cfg), spec=spec, k=k, n=len(rec[2])), sorted(ideal), res[1])
 
 
-def live_recordlayer(ctx, cfg, receiver, only_spec=None):
+def live_recordlayer(ctx, cfg, receiver, only_spec=None, variant=0):
     rng = ctx.rng
     label = "%d.%d/%s/etm=%s" % (cfg["ver"][0], cfg["ver"][1], cfg["cipher"], cfg["etm"])
-    payloads = payloads_for(cfg, rng)
+    payloads = payloads_for(cfg, rng, variant)
     w = setup_window(ctx, cfg, receiver, payloads)
     if w is None:
         ctx.count("L1:not-negotiable")
         return
     L, cap, sent, refl = w
+    ctx.extra["_variant"] = variant
     w2 = setup_window(ctx, cfg, receiver, payloads, reflect=False)
     other = w2[2] if w2 is not None else []
     conn = L.end(receiver).conn
@@ -777,7 +782,10 @@ def live_streams(ctx):
     rng = ctx.rng
     budget = ctx.pick(140, 1000)
     i = 0
-    for cfg in live_configs(ctx):
+    cfgs = list(live_configs(ctx))
+    if ctx.thorough():
+        rng.shuffle(cfgs)
+    for cfg in cfgs:
         i += 1
         if ctx.elapsed() > budget:
             ctx.count("live:skipped-out-of-time")
@@ -786,7 +794,8 @@ def live_streams(ctx):
             recv = "server" if (i + ctx.seed) % 2 else "client"
             live_recordlayer(ctx, cfg, recv)
             if ctx.thorough():
-                live_recordlayer(ctx, cfg, "client" if recv == "server" else "server")
+                live_recordlayer(ctx, cfg, "client" if recv == "server" else "server", variant=1)
+                live_recordlayer(ctx, cfg, recv, variant=2)
             classes = list(L2_CLASSES) + (L2_CLASSES_13 if cfg["ver"] >= (3, 4) else [])
             if not ctx.thorough() and cfg["cipher"] in R.SLOW:
                 classes = ["flip", "replay", "trunc", "reflect"]
@@ -817,13 +826,14 @@ def run(ctx):
                        "covered by the toy stream and early_data_skip_safe, not by the live streams (which start after the handshake)"]
     toy_decisions(ctx)
     live_streams(ctx)
+    ctx.extra.pop("_variant", None)
 
 
 def replay(ctx, rep):
     inp = rep["input"]
     st = inp.get("stage")
     if st == "L1":
-        live_recordlayer(ctx, ucfg(inp["cfg"]), inp["receiver"], only_spec=inp["spec"])
+        live_recordlayer(ctx, ucfg(inp["cfg"]), inp["receiver"], only_spec=inp["spec"], variant=inp.get("variant", 0))
     elif st == "L2":
         live_connection_case(ctx, ucfg(inp["cfg"]), inp["receiver"], inp["cls"], inp["mode"])
     else:
